@@ -262,7 +262,11 @@ func (set *TemplateSet) fromFileNested(filename string, pulledInBy *Template) (*
 func (set *TemplateSet) RenderTemplateString(s string, ctx Context) (string, error) {
 	atomic.StoreInt32(&set.firstTemplateCreated, 1)
 
-	tpl := Must(set.FromString(s))
+	tpl, err := set.FromString(s)
+	if err != nil {
+		// (an error, not a panic: this is not Must)
+		return "", err
+	}
 	result, err := tpl.Execute(ctx)
 	if err != nil {
 		return "", err
@@ -274,7 +278,11 @@ func (set *TemplateSet) RenderTemplateString(s string, ctx Context) (string, err
 func (set *TemplateSet) RenderTemplateBytes(b []byte, ctx Context) (string, error) {
 	atomic.StoreInt32(&set.firstTemplateCreated, 1)
 
-	tpl := Must(set.FromBytes(b))
+	tpl, err := set.FromBytes(b)
+	if err != nil {
+		// (an error, not a panic: this is not Must)
+		return "", err
+	}
 	result, err := tpl.Execute(ctx)
 	if err != nil {
 		return "", err
@@ -286,7 +294,11 @@ func (set *TemplateSet) RenderTemplateBytes(b []byte, ctx Context) (string, erro
 func (set *TemplateSet) RenderTemplateFile(fn string, ctx Context) (string, error) {
 	atomic.StoreInt32(&set.firstTemplateCreated, 1)
 
-	tpl := Must(set.FromFile(fn))
+	tpl, err := set.FromFile(fn)
+	if err != nil {
+		// (an error, not a panic: this is not Must)
+		return "", err
+	}
 	result, err := tpl.Execute(ctx)
 	if err != nil {
 		return "", err
